@@ -205,14 +205,37 @@ def r02b(ck, prog, groups):
     R = prog.fn("recursive_aln")
     D = prog.fn("do_align")
     nshape = 0
-    for G, idnames in ((D, None), (R, None)):
-        # node-id locals: defined from t->list[..]->a / ->b / ->c (possibly minus numseq for the recursion argument)
+    def id_locals(G):
         ids = set()
         for n in G.body.find("BinaryOperator"):
             if n.d["op"] == "=" and n.kids[0].strip().k == "DeclRefExpr":
                 r = n.kids[1].strip(casts=True)
                 if r.k == "MemberExpr" and r.d.get("rec") == "task" and r.d.get("field") in ("a", "b", "c"):
                     ids.add(n.kids[0].strip().d["did"])
+        for n in G.body.find("DeclStmt"):
+            for kid in n.kids:
+                if kid.role == "declinit":
+                    r = kid.strip(casts=True)
+                    if r.k == "MemberExpr" and r.d.get("rec") == "task" and r.d.get("field") in ("a", "b", "c"):
+                        ids.add(kid.decl["did"])
+        return ids
+    # private helpers of do_align that receive node ids as arguments
+    todo = [(D, None), (R, None)]
+    dids = id_locals(D)
+    for c in D.body.calls():
+        H = prog.functions.get(c.callee) if c.callee else None
+        if H is not None and H.static and H.file == D.file and H is not D:
+            pid = set()
+            for i, a in enumerate(c.args):
+                a0 = a.strip(casts=True)
+                if a0.k == "DeclRefExpr" and a0.d["did"] in dids and i < len(H.params):
+                    pid.add(H.params[i]["did"])
+            if pid and not any(x[0] is H for x in todo):
+                # every call of the helper must pass ids in those positions
+                todo.append((H, pid))
+    for G, extra in todo:
+        # node-id locals: defined from t->list[..]->a / ->b / ->c, or id parameters of a private helper
+        ids = id_locals(G) | (extra or set())
         for n in G.body.walk():
             if n.k not in ("ArraySubscriptExpr",):
                 continue
